@@ -7,7 +7,7 @@ import X86Model.Driver.Addr
 
 open X86 X86.Driver
 
-def allHandlers : List Handler := [handleC05]
+def allHandlers : List Handler := [handleC03, handleC04, handleC05, handleC06, handleC07]
 
 def dispatch : Handler := fun cfg op a impl =>
   allHandlers.firstM (fun h => h cfg op a impl)
